@@ -115,6 +115,11 @@ Body(t, i, style, ch, eb, ctx, ci, pad) ==
            ebk == IF style = "double" /\ multi /\ eb[i] = 1 /\ ~IsBlank(c) /\ ~IsNl(c) THEN <<"\\", "\n">> \o Spc(ctx.n + 1 + ci) ELSE <<>>
        IN IF IsNl(c) /\ NlRunStart(t, i) /\ multi /\ NlPlainOK(t) /\ (style # "double" \/ ch[i] = 0)
           THEN LET k == NlRun(t, i) IN Breaks(k, ctx, ci, pad) \o Body(t, i + k, style, ch, eb, ctx, ci, pad)
+          \* double quotes: an escaped line break followed by k empty lines also denotes k line feeds (the empty
+          \* lines after an escaped break are content); the next character must not be a literal blank
+          ELSE IF IsNl(c) /\ NlRunStart(t, i) /\ multi /\ style = "double" /\ ch[i] = 2
+                  /\ i + NlRun(t, i) <= Len(t) /\ ~IsBlank(t[i + NlRun(t, i)])
+          THEN LET k == NlRun(t, i) IN <<"\\", "\n">> \o [j \in 1..k |-> "\n"] \o Spc(ctx.n + 1 + ci) \o Body(t, i + k, style, ch, eb, ctx, ci, pad)
           ELSE IF c = " " /\ Foldable(t, i) /\ multi /\ ch[i] = 1 /\ (style = "double" \/ ~(t[i + 1] \in Indicators))
           THEN Brk(ctx, ci, pad) \o Body(t, i + 1, style, ch, eb, ctx, ci, pad)
           ELSE LET one == IF style = "double"
